@@ -29,6 +29,8 @@ def call_ext(it, ref, args, kwargs, node):
     recv = ref.recv
     if name.startswith("builtins."):
         f = _BUILTINS.get(name[9:])
+        if f is None and name in _EXT:
+            return _EXT[name](it, args, kwargs, node)
         if f is None:
             if name[9:] in ops.BUILTIN_EXC_NAMES:
                 return ExcVal(name[9:], tuple(args), node, it._where(node))
@@ -89,6 +91,59 @@ def _int_of_char(it, c, node, collect):
     return None
 
 
+def _int_base(it, v, base, node):
+    """int(text, base) on abstract text: ASCII characters by Python's own rule, ND = any non-ASCII decimal digit."""
+    def one_char(c):
+        if isinstance(c, CharSet):
+            (a,) = c.chars
+            if a == ND:
+                return list(range(min(10, base))) if base >= 2 else None
+            return None
+        try:
+            return [int(c, base)]
+        except ValueError:
+            return None
+
+    if isinstance(v, VSet):
+        good, bad = [], []
+        for x in v.vals:
+            try:
+                good.append(int(x, base))
+            except (ValueError, TypeError):
+                bad.append(x)
+        if bad:
+            it.may_raise("ValueError", node, f"int({bad[0]!r}, {base})", certain=not good, witness=bad[0])
+        return join_values(good)
+    if isinstance(v, CharSet):
+        good, bad = [], []
+        for e in elements(v):
+            r = one_char(e)
+            if r is None:
+                bad.append(e if isinstance(e, str) else next(iter(e.chars)))
+            else:
+                good.extend(r)
+        if bad:
+            it.may_raise("ValueError", node, f"int() with base {base} of the character {sorted(bad)[0]!r}", certain=not good, witness=sorted(bad)[0])
+        return join_values(good)
+    # AStr
+    n = len(v)
+    if n == 0:
+        it.may_raise("ValueError", node, "int() of empty string", certain=True, witness="")
+    bad = None
+    allbad = False
+    for i, p in enumerate(v.pos):
+        els = elements(p) if isinstance(p, CharSet) else [p]
+        ok = [e for e in els if one_char(e) is not None]
+        if len(ok) < len(els) and bad is None:
+            e = next(e for e in els if one_char(e) is None)
+            bad = (i, e if isinstance(e, str) else next(iter(e.chars)))
+        if not ok:
+            allbad = True
+    if bad is not None:
+        it.may_raise("ValueError", node, f"int() with base {base} of a string with {bad[1]!r} at index {bad[0]}", certain=allbad, witness=bad)
+    return Interval(0, base ** n - 1)
+
+
 def _b_int(it, args, kwargs, node):
     from . import ops
     if not args:
@@ -100,6 +155,9 @@ def _b_int(it, args, kwargs, node):
                 return int(v, base)
             except ValueError as e:
                 it.may_raise("ValueError", node, str(e), certain=True, witness=v)
+        v = ops.strval(v)
+        if isinstance(base, int) and isinstance(v, (CharSet, VSet, AStr)):
+            return _int_base(it, v, base, node)
         raise _CE("int(x, base) on abstract value")
     (v,) = args
     v = ops.strval(v)
@@ -438,8 +496,11 @@ def _b_ord(it, args, kwargs, node):
     (v,) = args
     if isinstance(v, str) and len(v) == 1:
         return ord(v)
-    if isinstance(v, CharSet) and ND not in v.chars and OT not in v.chars:
-        return join_values([ord(c) for c in v.chars])
+    if isinstance(v, CharSet):
+        vals = [ord(c) for c in v.chars if c not in (ND, OT)]
+        if ND in v.chars or OT in v.chars:
+            return Interval(min(vals + [128]), 0x10FFFF)
+        return join_values(vals)
     raise _CE("ord of abstract char")
 
 
@@ -525,9 +586,13 @@ def _s_upper(it, recv, args, kwargs, node):
     if isinstance(v, Sym):
         return Sym("upper", v)
     if isinstance(v, CharSet):
-        return CharSet(c if c in (ND, OT) else c.upper() for c in v.chars)
+        up = frozenset(c if c in (ND, OT) else c.upper() for c in v.chars)
+        return v if up == v.chars else CharSet(up)   # same instance when nothing changes (keeps position identity)
     if isinstance(v, AStr):
-        return AStr.make([_s_upper(it, p, [], {}, node) for p in v.pos])
+        pos = [_s_upper(it, p, [], {}, node) for p in v.pos]
+        if all(a is b for a, b in zip(pos, v.pos)):
+            return v
+        return AStr.make(pos)
     if isinstance(v, ABag):
         return ABag(v.lo, v.hi, _s_upper(it, v.cs, [], {}, node))
     if isinstance(v, VSet):
@@ -794,12 +859,43 @@ def _s_encode(it, recv, args, kwargs, node):
     raise _CE("encode")
 
 
+def _s_maketrans(it, recv, args, kwargs, node):
+    if all(isinstance(a, (str, dict)) for a in args):
+        return ("transtable", str.maketrans(*args))
+    raise _CE("str.maketrans on abstract arguments")
+
+
+def _s_translate(it, recv, args, kwargs, node):
+    v = _sv(recv)
+    t = args[0]
+    if not (isinstance(t, tuple) and t and t[0] == "transtable"):
+        raise _CE("str.translate with an unmodelled table")
+    table = t[1]
+    if isinstance(v, str):
+        return v.translate(table)
+    if isinstance(v, VSet):
+        return join_values([x.translate(table) for x in v.vals])
+    deleted = frozenset(chr(k) for k, x in table.items() if x is None)
+    mapped = {chr(k): (x if isinstance(x, str) else chr(x)) for k, x in table.items() if x is not None}
+    if isinstance(v, SStr) and v.clean and not mapped and all(c.isspace() for c in deleted):
+        return v   # deleting whitespace from a text of the clean universe is the identity
+    if isinstance(v, (SStr, Sym)):
+        return Sym("translate", v, deleted, tuple(sorted(mapped.items())))
+    if isinstance(v, (AStr, ABag, CharSet)) and not mapped:
+        cs = v.charset() if isinstance(v, AStr) else (v.cs if isinstance(v, ABag) else v)
+        if not (set(cs.chars) & deleted):
+            return v
+        n = len(v) if isinstance(v, AStr) else (v.hi if isinstance(v, ABag) else 1)
+        return ABag(0, n, CharSet(set(cs.chars) - deleted))
+    raise _CE("str.translate on abstract text")
+
+
 def _s_getnewargs(it, recv, args, kwargs, node):
     return (_sv(recv),)
 
 
 _STR = {
-    "__getnewargs__": _s_getnewargs,
+    "__getnewargs__": _s_getnewargs, "maketrans": _s_maketrans, "translate": _s_translate,
     "join": _s_join, "upper": _s_upper, "lower": _s_lower, "zfill": _s_zfill, "lstrip": _strip("lstrip"),
     "rstrip": _strip("rstrip"), "strip": _strip("strip"), "startswith": _s_startswith, "endswith": _s_endswith,
     "index": _s_index, "find": _s_find, "format": _s_format, "replace": _s_replace, "split": _s_split,
@@ -815,13 +911,13 @@ _STR = {
 # ------------------------------------------------------------------------------------------------ list / dict / set
 
 def _l_append(it, recv, args, kwargs, node):
-    it.event("mutate", obj=recv, op="append", node=node)
+    it.event("mutate", obj=recv, op="append", node=node, shared=it.shared_ids.get(id(recv)), where=it._where(node))
     recv.append(args[0])
 
 
 def _l_extend(it, recv, args, kwargs, node):
     from . import ops
-    it.event("mutate", obj=recv, op="extend", node=node)
+    it.event("mutate", obj=recv, op="extend", node=node, shared=it.shared_ids.get(id(recv)), where=it._where(node))
     recv.extend(ops.iterate(it, args[0], node))
 
 
@@ -835,7 +931,7 @@ def _l_index(it, recv, args, kwargs, node):
 
 
 def _l_pop(it, recv, args, kwargs, node):
-    it.event("mutate", obj=recv, op="pop", node=node)
+    it.event("mutate", obj=recv, op="pop", node=node, shared=it.shared_ids.get(id(recv)), where=it._where(node))
     try:
         return recv.pop(*args)
     except IndexError:
@@ -846,7 +942,21 @@ def _l_copy(it, recv, args, kwargs, node):
     return list(recv)
 
 
-_LIST = {"append": _l_append, "extend": _l_extend, "index": _l_index, "pop": _l_pop, "copy": _l_copy}
+def _l_sort(it, recv, args, kwargs, node):
+    it.event("mutate", obj=recv, op="sort", node=node, shared=it.shared_ids.get(id(recv)), where=it._where(node))
+    res = _b_sorted(it, [recv], kwargs, node)
+    if not isinstance(res, list):
+        raise _CE("list.sort on abstract keys")
+    recv[:] = res
+    return None
+
+
+def _l_reverse(it, recv, args, kwargs, node):
+    it.event("mutate", obj=recv, op="reverse", node=node, shared=it.shared_ids.get(id(recv)), where=it._where(node))
+    recv.reverse()
+
+
+_LIST = {"append": _l_append, "extend": _l_extend, "index": _l_index, "pop": _l_pop, "copy": _l_copy, "sort": _l_sort, "reverse": _l_reverse}
 
 
 def _d_get(it, recv, args, kwargs, node):
@@ -879,7 +989,7 @@ def _d_values(it, recv, args, kwargs, node):
 
 
 def _d_pop(it, recv, args, kwargs, node):
-    it.event("mutate", obj=recv, op="pop", node=node)
+    it.event("mutate", obj=recv, op="pop", node=node, shared=it.shared_ids.get(id(recv)), where=it._where(node))
     if is_abstract(args[0]):
         raise _CE("dict.pop abstract key")
     if args[0] in recv:
@@ -890,14 +1000,14 @@ def _d_pop(it, recv, args, kwargs, node):
 
 
 def _d_setdefault(it, recv, args, kwargs, node):
-    it.event("mutate", obj=recv, op="setdefault", node=node)
+    it.event("mutate", obj=recv, op="setdefault", node=node, shared=it.shared_ids.get(id(recv)), where=it._where(node))
     if is_abstract(args[0]):
         raise _CE("dict.setdefault abstract key")
     return recv.setdefault(args[0], args[1] if len(args) > 1 else None)
 
 
 def _d_update(it, recv, args, kwargs, node):
-    it.event("mutate", obj=recv, op="update", node=node)
+    it.event("mutate", obj=recv, op="update", node=node, shared=it.shared_ids.get(id(recv)), where=it._where(node))
     for a in args:
         if not isinstance(a, dict):
             raise _CE("dict.update with non-dict")
@@ -1245,6 +1355,7 @@ _EXT = {
     "operator.itemgetter": _itemgetter, "typing.cast": _cast, "warnings.warn": _warn,
     "pycountry.countries.get": _pycountry_get, "collections.defaultdict": _defaultdict,
     "copy.deepcopy": _deepcopy, "copy.copy": _copy,
+    "builtins.str.maketrans": lambda it, a, k, n: _s_maketrans(it, None, a, k, n),
     "importlib.resources.files": _files, "importlib_resources.files": _files, "json.load": _json_load,
 }
 
